@@ -23,6 +23,8 @@ def run(rep, tier):
     linalg.r_cplx_algebra(rep, f)
     rep.rule("R-CPLX-MODULUS", "every |re| + |im| magnitude in the complex factorisation pairs the real and the imaginary matrix at the same entry")
     linalg.r_cplx_modulus(rep, f)
+    rep.rule("R-ZERO-SKIP", "work skipped because a multiplier tests as zero is a no-op: with the tested quantities set to 0 every skipped update vanishes (a complex value is zero only when both parts are)")
+    linalg.r_zero_skip(rep, f)
     linalg.r_solve_readonly(rep, f)
     linalg.r_lu_checked(rep, f)
     rep.explanation = ("Decides the error discipline, the pivoting idiom, the sign convention shared by factorisation and solves, and read-only-ness of the factors. "
